@@ -1,6 +1,7 @@
 package rules
 
 import (
+	"go/token"
 	"fmt"
 	"strings"
 
@@ -48,6 +49,7 @@ func c04(r *core.Run) {
 	r.Explanation = "Static rules over storage.MsgBuyStorage and the pay-once branch of storage.MsgPostFile: every bank call of the handler is classified by the provenance of its counterparty into {debit, new gauge, POL account, referrer, fee collector} (closed set); the debit depends on the priced quantities of the message, the price parameter and the price feed; every cut depends on everything the debit depends on (same base); the gauge is funded with the very value it records; the POL cut depends on Param(PolRatio) and not on Param(ReferralCommission), the referrer's and the fee collector's cut depend on Param(ReferralCommission) and not on Param(PolRatio); all bank errors propagate to a failing return. Exact prices and 'within one base unit' are numeric and not decided."
 	r.Assumptions = []string{T1, T3, T6}
 	r.NotDecided = []string{"exact price arithmetic", "'within one base unit'", "Σ credits ≤ debit (follows numerically from ratios ≤ 100%)"}
+	r.Rule("C04/R11", "what is stored is the record as it stands: wherever the storage module writes the marshalled form of a local record, the record is not assigned to between the marshalling and the write (a gauge record marshalled before the merge with an existing gauge keeps only the latest deposit)")
 	r.Rule("C04/R10", "the ratio and price parameters used are the governance-set ones: the storage module's GetParams returns the stored parameter set unmodified (no default standing in for a stored 0) and each parameter key is bound to the Params field confirmed for it")
 	r.Rule("C04/R1", "debit = price: the account->module amount depends on the message's size/duration fields, Param(PricePerTbPerMonth) and the price feed; payer ⊵ signer; every cut depends on every source the debit depends on")
 	r.Rule("C04/R2", "gauge funded with exactly what it records: the value passed to the gauge constructor and the value sent to that gauge's account are the same SSA value")
@@ -60,6 +62,7 @@ func c04(r *core.Run) {
 	r.Rule("C04/R6", "referral gate: the referrer payout is on committing paths only behind a successful resolution of msg.Referral and behind Eq(resolved referral, signer)=false (directly or through a boolean flag set only there)")
 	paramsGetterFaithful(r, "C04/R10", "storage")
 	paramPairsConsistent(r, "C04/R10", "storage")
+	r.Floor("C04/R11", marshalIsFresh(r, "C04/R11", "storage"), 8, "marshalled local records written by the storage module")
 	hs, err := p.Handlers()
 	if err != nil {
 		r.Undecided("C04/R1", "handlers", "", err.Error())
@@ -397,6 +400,46 @@ func c04(r *core.Run) {
 			}
 			u1 := p.FindUnguarded(fn, []*core.Effect{eff}, anyOf(distinct, p.FlagImplies(fn, distinct), viaParam(distinct)), false)
 			r.Check(len(u1) == 0, "C04/R6", sp.key+":referrer-distinct-from-signer", p.InstrPos(s.bo.Instr), "referrer payout only behind Eq(resolved msg.Referral, signer)=false", "the referral commission (and discount) can be paid when the referrer is not established to be distinct from the paying signer — a payer can refer itself")
+			// the distinctness test compares accounts, not spellings: AccAddress.Equals, or two canonical renderings
+			// (AccAddress.String()); a message string compared as text lets the same account through in another case
+			isCanon := func(v ssa.Value) bool {
+				for i := 0; i < 4; i++ {
+					switch x := v.(type) {
+					case *ssa.UnOp:
+						if al, ok := x.X.(*ssa.Alloc); ok {
+							var only ssa.Value
+							n := 0
+							for _, ref := range *al.Referrers() {
+								if st, isSt := ref.(*ssa.Store); isSt && st.Addr == al {
+									only, n = st.Val, n+1
+								}
+							}
+							if n == 1 {
+								v = only
+								continue
+							}
+						}
+					case *ssa.Call:
+						return strings.HasSuffix(core.CalleeFullName(x), "types.AccAddress).String")
+					}
+					break
+				}
+				return false
+			}
+			for _, tf := range p.Summary(h.Fn).Funcs {
+				allInstrs(tf, func(in ssa.Instruction) {
+					bo, ok := in.(*ssa.BinOp)
+					if !ok || (bo.Op != token.EQL && bo.Op != token.NEQ) {
+						return
+					}
+					pa, pb := p.ResolveToEntry(p.ProvAt(bo.X, "", bo), h.Fn), p.ResolveToEntry(p.ProvAt(bo.Y, "", bo), h.Fn)
+					if !((isReferral(pa) && isSigner(pb)) || (isReferral(pb) && isSigner(pa))) {
+						return
+					}
+					r.Check(isCanon(bo.X) && isCanon(bo.Y), "C04/R6", sp.key+":referrer-distinctness-on-addresses", p.InstrPos(bo), "both sides are canonical renderings of parsed addresses",
+						"the referrer is compared with the signer as text, one side being the message's own spelling: bech32 accepts the all-upper-case form of an address, so a payer that spells its own address in upper case passes as a distinct referrer and collects the referral discount and commission on its own purchase")
+				})
+			}
 			u2 := p.FindUnguarded(fn, []*core.Effect{eff}, anyOf(resolved, p.FlagImplies(fn, resolved), viaParam(resolved)), false)
 			r.Check(len(u2) == 0, "C04/R6", sp.key+":referrer-resolved", p.InstrPos(s.bo.Instr), "referrer payout only behind ErrNil(resolve msg.Referral)", "the referral commission can be paid to an unresolved referrer")
 			// the fee-collector payout is the complementary branch: not behind the same flag=true
